@@ -154,13 +154,19 @@ def parseFont (ws : List String) : Option RawFontDict := do
       let bs ← bytesOfHex hx
       some (some { missingWidth := mw, fontFile := some { data := bs, length1 := l1 } : DescriptorOf RawFontFile }, ws))
   let (_, ws) ← expect "M" ws
+  -- the FontMatrix entry as it stands in the file: `none` (absent) | `notlist` | `[` e1 … en `]` with e = rational | `x`;
+  -- the model (`type3Matrix`) decides whether it is usable
   let (fm, ws) ← (match ws with
-    | ["none"] => some (((1 : Rat) / 1000, 0, 0, (1 : Rat) / 1000, 0, 0), ([] : List String))
-    | _ => do
-      let (xs, ws) ← pMany pRat 6 ws
-      match xs with
-      | [a, b, c, d, e, f] => some ((a, b, c, d, e, f), ws)
-      | _ => none)
+    | ["none"] => some (type3Matrix .absent, ([] : List String))
+    | ["notlist"] => some (type3Matrix .notList, ([] : List String))
+    | "[" :: rest =>
+      match rest.getLast? with
+      | some "]" =>
+        match (rest.dropLast).mapM (fun w => if w == "x" then some (none : Option Rat) else (ratOfString w).map some) with
+        | some xs => some (type3Matrix (.list xs), ([] : List String))
+        | none => none
+      | _ => none
+    | _ => none)
   if !ws.isEmpty then none else
   let isT3 ← simpleClass (if sub == "absent" then none else some sub)   -- `get_font` dispatch (composite: not C06)
   some { isType3 := isT3, baseFont := baseFont, enc := enc, toUnicode := tu, firstChar := fc,
